@@ -238,8 +238,11 @@ class Gen:
             xs, e = self.seq([lambda: self.int_expr(D)] * n)
             return {"op": rng.choice(["and", "or"]), "xs": xs}, e
         if kind == "setx":
-            name = rng.choice(self.assignable)
-            n, e = self.int_expr(D)
+            # prefer let-bound targets and values whose result temporary the compiler may
+            # rename to the target (Result.rename): if / try / and-or with statements
+            lets = [a for a in self.assignable if a.startswith("l")]
+            name = rng.choice(lets) if lets and rng.random() < 0.6 else rng.choice(self.assignable)
+            n, e = self.renamable_value(D) if rng.random() < 0.6 else self.int_expr(D)
             return {"op": "setx", "n": name, "e": n}, eff_join(e, eff(w=[name]))
         if kind == "let":
             return self.let_form(D, "int")
@@ -266,6 +269,29 @@ class Gen:
             n, e = self.int_expr(D)
             return {"op": "return", "e": n}, eff_join(e, eff(j=["return"]))
         raise AssertionError(kind)
+
+    def renamable_value(self, d):
+        """An int-typed form that compiles to statements plus a result temporary."""
+        rng = self.rng
+        k = rng.choice(["if", "try", "andor", "cond"])
+        D = d + 1
+        if k == "if":
+            c, ec = self.any_expr(D)
+            a, ea = self.stmt_wrap(self.int_expr(D))
+            b, eb = self.int_expr(D)
+            if rng.random() < 0.5:
+                a, ea, b, eb = b, eb, a, ea
+            return {"op": "if", "c": c, "a": a, "b": b}, eff_join(ec, ea, eb)
+        if k == "try":
+            return self.try_form(d, "int")
+        if k == "cond":
+            c, ec = self.any_expr(D)
+            r, er = self.stmt_wrap(self.int_expr(D))
+            r2, er2 = self.int_expr(D)
+            return {"op": "cond", "cl": [[c, r], [{"op": "true"}, r2]]}, eff_join(ec, er, er2)
+        xs, e = self.seq([lambda: self.int_expr(D), lambda: self.stmt_wrap(self.int_expr(D))]
+                         + [lambda: self.int_expr(D)] * rng.randint(0, 1))
+        return {"op": rng.choice(["and", "or"]), "xs": xs}, e
 
     def index_expr(self, n):
         i = self.rng.randrange(n)
@@ -400,7 +426,7 @@ class Gen:
             ps, es = [], []
             for _ in range(n):
                 name = rng.choice(self.assignable)
-                v, e = self.int_expr(D)
+                v, e = self.renamable_value(D) if rng.random() < 0.25 else self.int_expr(D)
                 ps.append([name, v])
                 es.append(eff_join(e, eff(w=[name])))
             return {"op": "setv", "ps": ps}, eff_join(*es)
